@@ -48,6 +48,8 @@ func Main(t *testing.T, mode string, fn func(c Case, file []byte, report func(er
 		d := dev
 		if sc.Workers == 1 {
 			d = 0
+		} else if len(sc.Keys) > 6 || sc.Workers > 3 {
+			d = 4
 		}
 		hist := map[string]bool{}
 		diverged := 0
